@@ -1,6 +1,6 @@
 #!/usr/bin/env python3
 """Rewrites the `expected` sections of lean/KafVerif/Model/StorageLogOpsSpec.lean from the CURRENT pkg/storage/log.go,
-pkg/storage/buffer.go and cmd/broker/main.go.
+pkg/storage/buffer.go, cmd/broker/main.go, pkg/storage/segment.go (BuildSegment) and pkg/storage/index.go (BuildBytes).
 
     python3 harness/C01/tools/mkspec.py [repo root]        (default /repo; run from /verif)
 
@@ -36,6 +36,10 @@ MODEL = {
     "handleProduce": "`ackNow` / `.failed`: error code 0 only after AppendBatch and Flush returned nil",
     "getPartitionLog": "event `restore` (NextOffset, NewPartitionLog, RestoreFromS3, offset sync, registry write) and, func2, event `pub t ok` "
                        "(onFlush -> store.UpdateOffsets(artifact.LastOffset)); registry steps: Model/StorageLogRegistry.lean",
+    "BuildSegment": "`buildOk false` (the `BuildSegment` call of `prepareFlush`, AFTER `Drain`): its error returns are `len(batches) == 0`, "
+                    "`len(batch.Bytes) == 0` and the errors of two writes into a bytes.Buffer — `buildErrorsKnown`; a new error return "
+                    "(e.g. a validation of `batch.MessageCount`) is `strictBuild`",
+    "BuildBytes": "no error (`buildOk`): every error return of `IndexBuilder.BuildBytes` follows a write into its bytes.Buffer",
 }
 
 
@@ -57,7 +61,7 @@ def main():
     out.append("def sections : List (String × List Row) := [\n%s]\n" % ",\n".join('  ("%s", sec_%s)' % (f, f) for f in order))
     out.append("/-- the table the model was written against -/")
     out.append("def expected : List Row := sections.flatMap (·.2)")
-    path = os.path.join(lib.LEAN, "KafVerif", "Model", "StorageLogOpsSpec.lean")
+    path = os.path.join(os.environ.get("VERIF_LEAN_DIR") or lib.LEAN, "KafVerif", "Model", "StorageLogOpsSpec.lean")
     s = open(path).read()
     a = s.index("-- BEGIN SECTIONS")
     a = s.index("\n", a) + 1
